@@ -11,6 +11,8 @@ From XcpProofs Require Import ConcBlockProofs ConcFileProofs.
 From XcpModel Require Import Extracted.
 From XcpProofs Require Import ExtractedOk.
 From Coq Require Import Lia.
+From XcpProofs Require Import PinnedSource.
+From XcpPins Require Import Pin_parfile_copy_worker Pin_parblock_queue_file_range Pin_parblock_dispatch_worker.
 Local Open Scope nat_scope.
 
 Theorem C20_parblock_open_bound : forall W Q ops s, reachable W Q ops s -> length (b_open s) <= Q + W + 1.
@@ -39,7 +41,19 @@ Proof. vm_compute. reflexivity. Qed.
 Theorem C20_src_pool_queue_len : x_pool_queue_len = 128%N.
 Proof. exact x_pool_queue_len_ok. Qed.
 
+(* ---- the glue functions this property's hand-written model mirrors are, token for token, the ones it was
+   validated against (an edit re-opens the obligation; harness/repin.py re-pins after re-validation) ---- *)
+Theorem C20_src_pin_parfile_copy_worker : pin_unchanged name_parfile_copy_worker.
+Proof. exact pin_parfile_copy_worker. Qed.
+Theorem C20_src_pin_parblock_queue_file_range : pin_unchanged name_parblock_queue_file_range.
+Proof. exact pin_parblock_queue_file_range. Qed.
+Theorem C20_src_pin_parblock_dispatch_worker : pin_unchanged name_parblock_dispatch_worker.
+Proof. exact pin_parblock_dispatch_worker. Qed.
+
 Print Assumptions C20_parblock_open_bound.
 Print Assumptions C20_parfile_open_bound.
 Print Assumptions C20_default_limit.
 Print Assumptions C20_src_pool_queue_len.
+Print Assumptions C20_src_pin_parfile_copy_worker.
+Print Assumptions C20_src_pin_parblock_queue_file_range.
+Print Assumptions C20_src_pin_parblock_dispatch_worker.
